@@ -1,6 +1,7 @@
 """C14 — POP payouts follow the reward specification for every endorsement pattern."""
 import os
 import vlib
+from props import _xcheck as X
 
 LEVEL = "proof"
 HARNESSES = [("h_rewards", "rel")]
@@ -44,7 +45,10 @@ META = {
             "logging, the VBK_ASSERT preconditions of getPopPayout about the tree state. Mutating `>` to `>=` at the "
             "slope start is behaviour-preserving for well-formed parameters (penalty 0 at the boundary) and is only "
             "visible for thresholds below the slope start (abort). Modelled not verified: MockMiner, tree code "
-            "maintaining endorsedBy (C01/C04). thorough tier does not run coqchk.",
+            "maintaining endorsedBy (C01/C04). thorough tier does not run coqchk. A sample of 220 cases per run (every "
+            "driver op that calls the model, incl. the specification tests behind SPEC-MISMATCH) is re-evaluated inside "
+            "Coq by vm_compute and compared with the extracted model's output, so extraction is cross-checked, not "
+            "trusted blindly (props/_xcheck.py).",
     "technique": "Coq proof (refinement calculator-model = specification over Z, induction over endorsement lists) + "
                  "extraction-based differential correspondence + direct oracle on the implementation",
 }
@@ -340,6 +344,170 @@ def gen_tree(ctx, scale):
     return c
 
 
+# ---------------------------------------------------------------- in-Coq cross-check of the extraction
+XLOG = []     # (id, op, args, parameter line | None, scenario line | None, answer) of the model's cases of this run
+XC_REQUIRES = "Rewards.BigDecDefs Rewards.CalcDefs Rewards.SpecDefs Rewards.BoundsDefs"
+XC_SKIPPED = ["par", "scen", "conv"]    # state-setting / echo lines of the driver: no model function is called
+# encoders + the driver's own glue (ocaml/Rewards_driver.ml: at_height, the SPEC-MISMATCH tests) restated in Gallina
+XC_PREAMBLE = """
+Definition xo_z (r : outcome Z) : list Z := match r with Ok v => [0; v] | Throw => [1] | Abort => [2] | Fpe => [3] end.
+Definition xo_m (r : outcome (list (Z * Z))) : list Z :=
+  match r with Ok m => [0; Z.of_nat (length m)] ++ flat_map (fun kv => [fst kv; snd kv]) m | Throw => [1] | Abort => [2] | Fpe => [3] end.
+Definition xl (l : list Z) : list Z := Z.of_nat (length l) :: l.
+Fixpoint x_at (h : Z) (c : list Block) : Block * list Block :=
+  match c with [] => (Build_Block (-1) [], []) | b :: r => if b_height b =? h then (b, r) else x_at h r end.
+Fixpoint x_ins (k : Z) (l : list Z) : list Z :=
+  match l with [] => [k] | x :: r => if k <? x then k :: l else if k =? x then l else x :: x_ins k r end.
+Fixpoint x_leq (a b : list Z) : bool :=
+  match a, b with [], [] => true | x :: r, y :: t => (x =? y) && x_leq r t | _, _ => false end.
+Definition x_mis_pay (p : Params) (b : Block) (prevs : list Block) (r : outcome (list (Z * Z))) : bool :=
+  match r with
+  | Ok m => params_okb p && block_okb b && chain_okb prevs &&
+            negb (x_leq (map fst m) (fold_right x_ins [] (spec_payees b)) && forallb (fun kv => spec_paid p b prevs (fst kv) =? snd kv) m)
+  | _ => false end.
+Definition x_br (p : Params) (h s d : Z) : list Z :=
+  let r := block_reward256 p h s d in
+  let cond := params_okb p && (h <? 2 ^ 31) && (s <? 2 ^ 128) && (d <? 2 ^ 160) in
+  xo_z r ++ [xc_b (match r with
+                   | Ok v => cond && negb ((spec_block_reward p h s d =? v) &&
+                                           match round_for_block p h with Ok rd => v <=? spec_cap p rd | _ => false end)
+                   | _ => cond end)].
+Definition x_bdops (a b : Z) : list Z :=
+  [bd_add wrap256 a b; bd_sub wrap256 a b; bd_mul wrap256 a b] ++ match bd_div wrap256 a b with Ok v => [0; v] | _ => [1] end ++
+  [match a ?= b with Lt => 0 | Eq => 1 | Gt => 2 end; bd_integer_fraction a; bd_decimal_fraction a; bd_of_u64 wrap256 (low64 a)].
+Definition x_pay (p : Params) (c : list Block) : list Z :=
+  let r := get_pop_payout256 p c in
+  xo_m r ++ [xc_b (match spec_endorsed p c with
+                   | Some (b, prevs) => x_mis_pay p b prevs r
+                   | None => match r with Ok (_ :: _) => true | _ => false end end)].
+Definition x_payat (p : Params) (c : list Block) (h : Z) : list Z :=
+  let '(b, prevs) := x_at h c in let r := calc_payouts256 p b prevs in xo_m r ++ [xc_b (x_mis_pay p b prevs r)].
+Definition x_payin (p : Params) (c : list Block) (h s d : Z) : list Z := xo_m (payouts_inner256 p (fst (x_at h c)) s d).
+Definition x_score (p : Params) (c : list Block) (h : Z) : list Z :=
+  let b := fst (x_at h c) in let r := score256 p (b_ends b) in
+  xo_z r ++ [xc_b (match r with Ok v => params_okb p && block_okb b && negb (spec_score p (b_ends b) =? v) | _ => false end)].
+Definition x_diff (p : Params) (c : list Block) (h : Z) : list Z :=
+  let prevs := snd (x_at h c) in let r := difficulty256 p prevs in
+  xo_z r ++ [xc_b (match r with Ok v => params_okb p && chain_okb prevs && negb (spec_difficulty p prevs =? v) | _ => false end)].
+Definition x_pardefault : list Z :=
+  let p := default_params in
+  [p_ki p; p_settle p; p_delay p; p_kround p; p_rounds p; p_flatround p; xc_b (p_useflat p); p_interval p;
+   p_start p; p_slopeN p; p_slopeK p; p_thrN p; p_thrK p] ++ xl (p_ratios p) ++ xl (p_table p).
+"""
+
+
+def xc_collect(model_input, mres):
+    """replay the state of the driver (current parameter set, current chain) over the lines it was fed"""
+    par = scen = None
+    for line in open(model_input):
+        t = line.split()
+        if len(t) < 2:
+            continue
+        op = t[1].rstrip("!")
+        if op in ("par", "pardefault"):
+            par = None if op == "pardefault" else t[2:]
+        if op == "scen":
+            scen = t[2:]
+        if op not in XC_SKIPPED and mres.get(t[0]) is not None:
+            XLOG.append((t[0], op, t[2:], par, scen, mres[t[0]]))
+
+
+def xc_params(a):
+    """Gallina record of a `par` line (the fixed-point integer after the `/` of every double token)"""
+    sc = lambda tok: X.z(int(tok.split("/")[1], 16))
+    ls = lambda tok: X.zlist([int(x.split("/")[1], 16) for x in tok[2:].split(",")] if len(tok) > 2 else [])
+    H = lambda tok: X.z(X.unhex(tok))
+    ki, settle, delay, kround, rounds, flatround, useflat, interval, start, sn, sk, tn, tk, r, t = a
+    return "(Build_Params %s)" % " ".join([H(ki), H(settle), H(delay), sc(start), sc(sn), sc(sk), H(kround), H(rounds),
+                                          H(flatround), X.b(useflat == "1"), ls(r), sc(tn), sc(tk), H(interval), ls(t)])
+
+
+def xc_chain(toks):
+    """Gallina chain (tip first, one block per height 0..tip) of a model-side `scen` line, as parse_view builds it"""
+    tip, blocks = 0, {}
+    for t in toks:
+        if t[0] == "T":
+            tip = int(t[1:], 16)
+        elif t[0] == "B":
+            h, es = t[1:].split(":")
+            blocks[int(h, 16)] = [e.split(".") for e in es.split(",")]
+    out = []
+    for h in range(tip, -1, -1):
+        es = ["Build_Endorsement %s %s" % (X.z(int(p, 16)), X.oz(None if b == "x" else int(b, 16))) for p, b in blocks.get(h, [])]
+        out.append("Build_Block %d %s" % (h, "[" + "; ".join(es) + "]" if es else "(@nil Endorsement)"))
+    return "[" + "; ".join(out) + "]"
+
+
+def xc_expected(op, ans):
+    """the driver's answer as the xo_z / xo_m (+ SPEC-MISMATCH flag) encoding; None when the answer is not a result"""
+    r = ans.split()
+    tag = {"ok": 0, "throw": 1, "abort": 2, "fpe": 3}.get(r[0])
+    if tag is None:
+        return None
+    mis = [1 if "SPEC-MISMATCH" in ans else 0]
+    vals = [x for x in r[1:] if not x.startswith("SPEC-MISMATCH") and x not in ("payees", "amounts", "outcome", "not-enough-blocks")]
+    if op in ("br", "score", "diff"):
+        return [tag] + [X.unhex(v) for v in vals] + mis
+    if op in ("mr", "round", "mult"):
+        return [tag] + [X.unhex(v) for v in vals]
+    if op in ("pay", "payat", "payin"):
+        e = [tag]
+        if tag == 0:
+            e.append(len(vals))
+            for kv in vals:
+                k, v = kv.split("=")
+                e += [X.unhex(k), X.unhex(v)]
+        return e + (mis if op != "payin" else [])
+    if op == "bdops":
+        add, sub, mul, div, cmp, fi, fd, of = vals
+        return [X.unhex(add), X.unhex(sub), X.unhex(mul)] + ([1] if div == "throw" else [0, X.unhex(div)]) + \
+            [{"lt010": 0, "eq111": 1, "gt001": 2}[cmp], X.unhex(fi), X.unhex(fd), X.unhex(of)]
+    if op == "pardefault":
+        i, j = vals.index("R"), vals.index("T")
+        nums = lambda l: [X.unhex(v) for v in l]
+        return nums(vals[:i]) + [j - i - 1] + nums(vals[i + 1:j]) + [len(vals) - j - 1] + nums(vals[j + 1:])
+    return None
+
+
+def run_xcheck(ctx, want=220):
+    """a deterministic sample of this run's model cases (every op of the driver that calls the model) is re-evaluated
+    inside Coq on the Gallina definitions and compared with what the extracted model answered"""
+    H = lambda t: X.z(X.unhex(t))
+    smp = X.sample(ctx.rng.fork(), XLOG, want, kind=lambda e: (e[1], e[5].split()[0], "SPEC-MISMATCH" in e[5]))
+    defs, names, items, hist = [], {}, [], {}
+
+    def shared(kind, key, render):
+        if (kind, key) not in names:
+            names[(kind, key)] = "xs%s_%d" % (kind, len(names))
+            defs.append("Definition %s := %s." % (names[(kind, key)], render()))
+        return names[(kind, key)]
+    for cid, op, a, par, scen, ans in smp:
+        exp = xc_expected(op, ans)
+        if exp is None or (op in ("pay", "payat", "payin", "score", "diff") and scen is None):
+            continue       # MODEL-ERROR lines (no block at that height, malformed input): nothing was computed
+        p = "default_params" if par is None else shared("p", tuple(par), lambda: xc_params(par))
+        c = None if scen is None else shared("c", tuple(scen), lambda: xc_chain(scen))
+        term = {"br": lambda: "x_br %s %s %s %s" % (p, H(a[0]), H(a[1]), H(a[2])),
+                "mr": lambda: "xo_z (miner_reward256 %s %s %s %s)" % (p, H(a[0]), H(a[1]), H(a[2])),
+                "mult": lambda: "[0; score_multiplier %s %s]" % (p, H(a[0])),
+                "round": lambda: "xo_z (round_for_block %s %s)" % (p, H(a[0])),
+                "bdops": lambda: "x_bdops %s %s" % (H(a[0]), H(a[1])),
+                "pardefault": lambda: "x_pardefault",
+                "pay": lambda: "x_pay %s %s" % (p, c),
+                "payat": lambda: "x_payat %s %s %s" % (p, c, H(a[0])),
+                "payin": lambda: "x_payin %s %s %s %s %s" % (p, c, H(a[0]), H(a[1]), H(a[2])),
+                "score": lambda: "x_score %s %s %s" % (p, c, H(a[0])),
+                "diff": lambda: "x_diff %s %s %s" % (p, c, H(a[0]))}.get(op)
+        if term is None:
+            ctx.broken.append("xcheck:Rewards: no Gallina rendering for op %s" % op)
+            continue
+        items.append(("%s/%s %s" % (cid, op, " ".join(a)[:120]), term(), exp))
+        hist[op] = hist.get(op, 0) + 1
+    X.xcheck(ctx, "Rewards", XC_REQUIRES, items, XC_PREAMBLE + "\n".join(defs))
+    ctx.cov["in_coq_ops"] = dict(sorted(hist.items()))
+    ctx.cov["in_coq_skipped_ops"] = list(XC_SKIPPED)
+
+
 # ---------------------------------------------------------------- running
 def write_lines(path, lines):
     with open(path, "w") as f:
@@ -475,6 +643,7 @@ def run(ctx):
         t1 = time.time()
         mres, ires, orc, err, skipped, extra = runner(model, H, cs.lines, ctx.work, tag)
         timing[tag + "_run_s"] = round(time.time() - t1, 1)
+        xc_collect(os.path.join(ctx.work, tag + "_model.txt"), mres)
         if err:
             ctx.broken.append("runner(%s): %s" % (tag, err))
         if tag == "tree":
@@ -501,6 +670,10 @@ def run(ctx):
         ctx.cov[tag + "_spec_evaluated_mismatches"] = sum(1 for v in mres.values() if "SPEC-MISMATCH" in v)
         for cid, text in cs.lines[:2] + cs.lines[-1:]:
             ctx.sample({"line": text[:300], "model": (mres.get(cid) or "")[:200], "impl": (ires.get(cid) or "")[:200]})
+    if not ctx.replay:
+        t1 = time.time()
+        run_xcheck(ctx)
+        timing["xcheck_s"] = round(time.time() - t1, 1)
     ctx.cov["scenario_views"] = vc
     ctx.cov["op_histogram"] = {k: pure.hist.get(k, 0) + tree.hist.get(k, 0) for k in set(pure.hist) | set(tree.hist)}
     ctx.cov["evaluations"] = total
